@@ -10,7 +10,8 @@ for d in sorted(os.listdir(os.path.join(V, "seeded"))):
     if os.path.exists(mp):
         rows[d] = json.load(open(mp))
 R5 = [d for d in rows if rows[d].get("round") == 5]
-R12 = [d for d in rows if d not in R3 and d not in R4 and d not in R5]
+R6 = [d for d in rows if rows[d].get("round") == 6]
+R12 = [d for d in rows if d not in R3 and d not in R4 and d not in R5 and d not in R6]
 
 
 def table(names):
@@ -33,7 +34,8 @@ out = ["# Seeded breaking changes (written independently by sub-agents)\n",
        "`git -C /repo checkout -- .`).\n",
        "| round | seeds | reported as shipped | reported after additions | still missed |", "|---|---|---|---|---|",
        "| 1+2 | 18 | 4 | 17 | C11-1 |", "| 3 | 14 | 5 | 14 | — |", "| 4 | 10 | 4 | 9 | C09-2 |",
-       "| 5 | 36 | 9 | 27 | " + " ".join(d for d in R5 if rows[d]["detected_by"].startswith("missed")) + " |\n",
+       "| 5 | 36 | 9 | 27 | " + " ".join(d for d in R5 if rows[d]["detected_by"].startswith("missed")) + " |",
+       "| 6 | 36 | 8 | 19 | " + " ".join(d for d in R6 if rows[d]["detected_by"].startswith("missed")) + " |\n",
        "## Rounds 1 and 2 (18 seeds, one per claimed property)\n",
        "First contact: 4 of 18 (C07-1, C10-1, C14-1, C19-1). For 13 of the 14 misses a structural or relational necessary condition exists and a",
        "rule was added (each run program-wide and read for false reports before arming); C11-1 stays missed (which slots the compaction may drop",
@@ -50,6 +52,11 @@ out += ["\n## Round 5 (36 seeds: every claimed property, one value/bound slip an
         "First contact: 9 of 36. 18 misses led to new or extended rules; 9 stay missed (the reason is in the table: each is a choice between two",
         "equally well-formed values or a floating-point result, not a shape of the code).\n"]
 out += table(R5)
+out += ["\n## Round 6 (36 seeds: per property one wrong-identifier slip (sibling variable, member, function or constant; swapped arguments) and one error-path / edge-case slip)\n",
+        "First contact: 8 of 36 - these kinds leave the shape of the code almost untouched. 11 misses led to rules that compare the tree with a committed",
+        "reference of the unchanged tree (MUSTCHECK, RESULTCLASS, ARGDEVIANT, INDEXSTEP) or state a pairing (FINIPATHS, CLONEFREE, BUFINSTALL, ERANGE, CUTSPEC);",
+        "17 stay missed: most replace one identifier by a sibling of the same type.\n"]
+out += table(R6)
 out.append("\n## Behaviour-preserving refactorings (false-alarm test)\n")
 out.append("Eight further agents produced 40 behaviour-preserving refactorings (renames, loop rewrites, helper extraction, condition restructuring,")
 out.append("temporaries) in the files with the densest rules, each with a differential driver showing identical behaviour. `tools/benign_test.sh` runs")
